@@ -42,7 +42,7 @@ theorem ringFrom_set_irrelevant (data : List Val) (cap k : Nat) (v : Val) :
       rwa [show g + (i + 1) = g + 1 + i by omega] at this
     rw [ih (g + 1) ht]
     congr 1
-    simp [List.getD, List.getElem?_set, Ne.symm h0]
+    simp [List.getD, Ne.symm h0]
 
 /-- two ring positions less than `cap` apart are different cells -/
 theorem ring_cells_distinct {cap g i n : Nat} (hi : i < n) (hn : n < cap) : (g + i) % cap ≠ (g + n) % cap := by
@@ -57,7 +57,7 @@ theorem ringFrom_push (data : List Val) (cap g n : Nat) (v : Val) (hlen : data.l
   rw [ringFrom_snoc, ringFrom_set_irrelevant data cap _ v n g (fun i hi => ring_cells_distinct hi hn)]
   congr 2
   have : (g + n) % cap < data.length := by rw [hlen]; exact Nat.mod_lt _ (by omega)
-  simp [List.getD, List.getElem?_set, this]
+  simp [List.getD, this]
 
 theorem ringFrom_pop (data : List Val) (cap g n : Nat) (hg : g < cap) :
     ringFrom data cap g (n + 1) = data.getD g 0 :: ringFrom data cap ((g + 1) % cap) n := by
@@ -156,7 +156,8 @@ theorem sendLoop_inv {ch : Chan} (h : ChanInv ch) (c : Cid) (v : Val) : ChanInv 
   split
   · rename_i hcap
     split
-    · split <;> exact inv_of_same h rfl rfl rfl rfl rfl rfl rfl
+    · dsimp only
+      split <;> exact inv_of_same h rfl rfl rfl rfl rfl rfl rfl
     · rename_i hne
       split
       · exact h
@@ -231,18 +232,20 @@ theorem tryRecvBody_inv {ch : Chan} (h : ChanInv ch) (tg : Target) (a : Bool) : 
       exact pop_inv h hcap hlen
 
 theorem prepBody_inv {ch : Chan} (h : ChanInv ch) (t : Tid) (b : Bool) : ChanInv (prepBody ch t b).ch := by
-  unfold prepBody
-  split <;> (split <;> exact inv_of_same h rfl rfl rfl rfl rfl rfl rfl)
+  by_cases hc : ch.cap = 0 ∧ b = true
+  · simp only [prepBody, if_pos hc]; exact inv_of_same h rfl rfl rfl rfl rfl rfl rfl
+  · simp only [prepBody, if_neg hc]; exact inv_of_same h rfl rfl rfl rfl rfl rfl rfl
 
 theorem endBody_inv {ch : Chan} (h : ChanInv ch) (t : Tid) (b : Bool) : ChanInv (endBody ch t b).ch := by
-  unfold endBody
-  split <;> exact inv_of_same h rfl rfl rfl rfl rfl rfl rfl
+  by_cases hc : ch.cap = 0 ∧ b = true
+  · simp only [endBody, if_pos hc]; exact inv_of_same h rfl rfl rfl rfl rfl rfl rfl
+  · simp only [endBody, if_neg hc]; exact inv_of_same h rfl rfl rfl rfl rfl rfl rfl
 
 /-- every critical section of `z_chan.go` preserves the channel invariant -/
 theorem body_inv {ch : Chan} (h : ChanInv ch) (p : Point) (t : Tid) : ChanInv (body p t ch).ch := by
   cases p <;> simp only [body]
   · exact sendLoop_inv h _ _
-  · exact sendLoop_inv (inv_of_same h rfl rfl rfl rfl rfl rfl rfl) _ _
+  · exact sendLoop_inv (ch := { ch with sends := ch.sends - 1 }) (inv_of_same h rfl rfl rfl rfl rfl rfl rfl) _ _
   · exact sendLoop_inv h _ _
   · exact recvLoop_inv h _ _
   · exact recvLoop_inv h _ _
@@ -254,5 +257,116 @@ theorem body_inv {ch : Chan} (h : ChanInv ch) (p : Point) (t : Tid) : ChanInv (b
   · exact tryRecvBody_inv h _ _
   · exact prepBody_inv h _ _
   · exact endBody_inv h _ _
+
+/-! ## lifting to the global transition system -/
+
+@[simp] theorem setThread_chans (s : State) (t : Tid) (th : Thread) : (s.setThread t th).chans = s.chans := rfl
+@[simp] theorem setOwner_chans (s : State) (c : Cid) (o : Option Tid) : (s.setOwner c o).chans = s.chans := rfl
+@[simp] theorem setChan_chans (s : State) (c : Cid) (ch : Chan) : (s.setChan c ch).chans = s.chans.set c ch := rfl
+@[simp] theorem setThread_owner (s : State) (t : Tid) (th : Thread) : (s.setThread t th).owner = s.owner := rfl
+@[simp] theorem setChan_owner (s : State) (c : Cid) (ch : Chan) : (s.setChan c ch).owner = s.owner := rfl
+@[simp] theorem setChan_threads (s : State) (c : Cid) (ch : Chan) : (s.setChan c ch).threads = s.threads := rfl
+@[simp] theorem setOwner_threads (s : State) (c : Cid) (o : Option Tid) : (s.setOwner c o).threads = s.threads := rfl
+
+@[simp] theorem applyDeliver_chans (s : State) (d : Option (Target × Val)) : (applyDeliver s d).chans = s.chans := by
+  cases d with
+  | none => rfl
+  | some x => rfl
+
+@[simp] theorem doAfter_chans (s : State) (t : Tid) (c : Cid) (k : After) : (doAfter s t c k).chans = s.chans := by
+  cases k with
+  | wait p => rfl
+  | finish bc n => cases n <;> cases bc <;> rfl
+
+@[simp] theorem doNotify_chans (s : State) (t : Tid) (c : Cid) (k : After) : (doNotify s t c k).chans = s.chans := by
+  unfold doNotify
+  split
+  · exact doAfter_chans ..
+  · rfl
+
+/-- a step rewrites at most one channel record, and only through a critical-section body -/
+theorem exec_chans (s : State) (t : Tid) :
+    (exec s t).chans = s.chans ∨
+    ∃ p, (s.thread t).pc = .at p ∧ (exec s t).chans = s.chans.set p.chan (body p t (s.chan p.chan)).ch := by
+  unfold exec
+  dsimp only
+  cases hpc : (s.thread t).pc with
+  | done => left; rfl
+  | start => left; rfl
+  | «at» p =>
+    right
+    refine ⟨p, rfl, ?_⟩
+    dsimp only
+    cases (body p t (s.chan p.chan)).out <;> simp
+  | notify c rest k =>
+    left
+    dsimp only
+    cases rest with
+    | nil => simp
+    | cons x xs => cases xs <;> simp
+  | selLock =>
+    left
+    dsimp only
+    split
+    · split <;> rfl
+    · rfl
+  | selWait =>
+    left
+    dsimp only
+    split <;> rfl
+
+/-- all channels of a state satisfy the channel invariant -/
+def GInv (s : State) : Prop := ∀ c, ChanInv (s.chan c)
+
+theorem getD_set_all {α : Type} (P : α → Prop) (l : List α) (d x : α) (i : Nat)
+    (h : ∀ j, P (l.getD j d)) (hx : P x) : ∀ j, P ((l.set i x).getD j d) := by
+  intro j
+  have hj := h j
+  simp only [List.getD, List.getElem?_set] at hj ⊢
+  split
+  · split
+    · simpa using hx
+    · rename_i hlt
+      have : l[j]? = none := by simp; omega
+      rw [this] at hj
+      simpa [‹i = j›, this] using hj
+  · exact hj
+
+theorem exec_ginv {s : State} (h : GInv s) (t : Tid) : GInv (exec s t) := by
+  rcases exec_chans s t with he | ⟨p, _, he⟩
+  · intro c; unfold State.chan; rw [he]; exact h c
+  · intro c; unfold State.chan; rw [he]
+    exact getD_set_all ChanInv s.chans dfltChan _ p.chan h (body_inv (h p.chan) p t) c
+
+theorem init_ginv (caps : List Nat) (progs : List (List Op)) : GInv (init caps progs) := by
+  intro c
+  simp only [State.chan, init, List.getD, List.getElem?_map]
+  cases caps[c]? with
+  | none => exact newChan_inv 0
+  | some cap => exact newChan_inv cap
+
+/-- reachability under every scheduler choice (steps of runnable threads and spurious wake-ups) -/
+inductive Reachable (s0 : State) : State → Prop
+  | init : Reachable s0 s0
+  | next {s s' : State} (ch : Choice) : Reachable s0 s → apply s ch = some s' → Reachable s0 s'
+
+theorem apply_ginv {s s' : State} (h : GInv s) (ch : Choice) (hs : apply s ch = some s') : GInv s' := by
+  cases ch with
+  | step t =>
+    simp only [apply, step] at hs
+    split at hs
+    · cases hs; exact exec_ginv h t
+    · cases hs
+  | wake t =>
+    simp only [apply, wake] at hs
+    split at hs
+    · cases hs; exact h
+    · cases hs
+
+theorem reachable_ginv {caps : List Nat} {progs : List (List Op)} {s : State}
+    (h : Reachable (init caps progs) s) : GInv s := by
+  induction h with
+  | init => exact init_ginv caps progs
+  | next ch _ hs ih => exact apply_ginv ih ch hs
 
 end LlgoVerif.Chan
